@@ -267,11 +267,13 @@ def monitor(scn, sobj, rep, sf, ck):
                 per_round.append(scn.inputs[pos - 1].led)
         rep.count("churn_rounds", len(per_round))
         for r, led in enumerate(per_round):
-            if led[0] != 1:
+            # (what an interface keeps after a Reset is judged against the baseline interface further down; here: the same after
+            # every round)
+            if (led[0], led[1]) != (per_round[0][0], per_round[0][1]):
                 rep.violation("C19:allocations-survive-reset:after-observation-churn",
                               "scenario %s: round %d of observation churn (fill levels, partial drains, re-sent observations) closed by "
-                              "a topology Reset: %d allocations / %d bytes are live, the per-interface record alone is expected"
-                              % (scn.sid, r + 1, led[0], led[1]), replay=sobj.text())
+                              "a topology Reset: %d allocations / %d bytes are live, after the first round it was %d / %d"
+                              % (scn.sid, r + 1, led[0], led[1], per_round[0][0], per_round[0][1]), replay=sobj.text())
                 break
         else:
             if per_round:
